@@ -30,10 +30,29 @@ pub const K_COMPOSE: u8 = 10;
 pub const K_EQ: u8 = 11;
 pub const K_REISSUE: u8 = 12;
 pub const K_AUDIT: u8 = 13;
-const NKINDS: usize = 14;
+/// a clause of the fixed clause table, built as a disjunction of literals
+pub const K_CLAUSE: u8 = 14;
+/// compile_cnf of one to three clauses of the same table (so that compiled formulas and separately built
+/// clauses of them meet in later operations)
+pub const K_COMPILE: u8 = 15;
+/// a read-only public query on a handle between two updates (cached semantic hash, plain semantic hash, node
+/// count): its answer is C10's business, here it is an event that later results must not depend on
+pub const K_QUERY: u8 = 16;
+const NKINDS: usize = 17;
 const KNAMES: [&str; NKINDS] = [
-    "var", "const", "negate", "and", "or", "xor", "iff", "ite", "condition", "exists", "compose", "eq", "reissue", "audit",
+    "var", "const", "negate", "and", "or", "xor", "iff", "ite", "condition", "exists", "compose", "eq", "reissue", "audit", "clause", "compile_cnf", "query",
 ];
+
+/// clause number `id` of the fixed clause table over `nvars` variables: one to three literals
+pub fn table_clause(id: usize, nvars: usize) -> Vec<(usize, bool)> {
+    let h = crate::rng::mix(0xC1A05E, id as u64);
+    let len = 1 + (h % 3) as usize;
+    (0..len).map(|j| (((h >> (8 + 8 * j)) as usize) % nvars, (h >> (40 + j)) & 1 == 1)).collect()
+}
+
+fn clause_tt(c: &[(usize, bool)]) -> TT {
+    c.iter().fold(tt::FALSE, |a, (v, p)| a | tt::lit(*v, *p))
+}
 
 pub type Ptr = SddPtr<'static>;
 
@@ -275,6 +294,13 @@ fn apply(b: &'static CompressionSddBuilder<'static>, r: &Resolved, pool: &[Ptr])
         K_COND => b.condition(g(0), l, r.flag),
         K_EXISTS => b.exists(g(0), l),
         K_COMPOSE => b.compose(g(0), l, g(1)),
+        K_CLAUSE => table_clause(r.x[0], r.x[1]).iter().fold(b.false_ptr(), |a, (v, p)| b.or(a, b.var(VarLabel::new(*v as u64), *p))),
+        K_COMPILE => {
+            let (cnt, nv) = (1 + (r.label & 3), r.label >> 2);
+            let clauses: Vec<Vec<rsdd::repr::Literal>> =
+                (0..cnt).map(|j| table_clause(r.x[j], nv).iter().map(|(v, p)| rsdd::repr::Literal::new(VarLabel::new(*v as u64), *p)).collect()).collect();
+            b.compile_cnf(&rsdd::repr::Cnf::new(&clauses))
+        }
         _ => unreachable!(),
     }
 }
@@ -297,6 +323,11 @@ fn model_of(r: &Resolved, tts: &[TT]) -> TT {
         K_IFF => tt::iff(g(0), g(1)),
         K_ITE => tt::ite(g(0), g(1), g(2)),
         K_COND => tt::restrict(g(0), r.label, r.flag),
+        K_CLAUSE => clause_tt(&table_clause(r.x[0], r.x[1])),
+        K_COMPILE => {
+            let (cnt, nv) = (1 + (r.label & 3), r.label >> 2);
+            (0..cnt).fold(tt::TRUE, |a, j| a & clause_tt(&table_clause(r.x[j], nv)))
+        }
         K_EXISTS => tt::exists(g(0), r.label),
         K_COMPOSE => tt::compose_doc(g(0), r.label, g(1)),
         _ => unreachable!(),
@@ -375,6 +406,7 @@ fn run(plan: &Plan, ctx: &mut Ctx) -> R {
     let mut twin_pool: Vec<Ptr> = Vec::new();
     let (mut sig_a, mut sig_b) = (BTreeMap::new(), BTreeMap::new());
 
+    let query_map = rsdd::repr::create_semantic_hash_map::<{ rsdd::constants::primes::U64_LARGEST }>(nvars);
     let mut pool: Vec<Ptr> = Vec::new();
     let mut tts: Vec<TT> = Vec::new();
     let mut own: Vec<Vec<usize>> = vec![Vec::new(); 4];
@@ -416,16 +448,26 @@ fn run(plan: &Plan, ctx: &mut Ctx) -> R {
         let caller = (op.c & 3) as usize;
         let n = pool.len();
         let mut kind = op.k;
-        if n == 0 && !matches!(kind, K_VAR | K_CONST) {
+        if kind == K_QUERY && n == 0 {
+            continue;
+        }
+        if n == 0 && !matches!(kind, K_VAR | K_CONST | K_CLAUSE | K_COMPILE) {
             kind = K_VAR;
         }
         let mut r = Resolved { kind, x: [0; 3], label: 0, flag: op.a[3] & 1 == 1, result: None };
-        if !matches!(kind, K_VAR | K_CONST | K_REISSUE | K_AUDIT) {
+        if !matches!(kind, K_VAR | K_CONST | K_REISSUE | K_AUDIT | K_CLAUSE | K_COMPILE | K_QUERY) {
             // resolve first to see whether an operand is too big
             let nops = match kind { K_NEG | K_COND | K_EXISTS => 1, K_ITE => 3, _ => 2 };
             let szs: Vec<u64> = (0..nops).map(|j| tsz_of[resolve(op.a[j], caller, &own, n)]).collect();
             let product: u64 = szs.iter().fold(1u64, |a, b| a.saturating_mul((*b).max(1)));
-            if (0..nops).any(|j| big[resolve(op.a[j], caller, &own, n)]) || (!compress && product > 60_000) {
+            // operations built from several applies work on intermediates as large as the product of their operands
+            let work: u64 = match kind {
+                K_ITE => szs[0].max(1).saturating_mul(szs[1].max(1)).saturating_mul(szs[0].max(1).saturating_mul(szs[2].max(1))),
+                K_XOR | K_IFF => product.saturating_mul(product),
+                K_EXISTS => product.saturating_mul(product),
+                _ => product,
+            };
+            if (0..nops).any(|j| big[resolve(op.a[j], caller, &own, n)]) || (!compress && work > 60_000) {
                 kind = K_VAR;
                 r.kind = K_VAR;
                 ctx.count("operand-too-big-degraded-to-var", 1);
@@ -434,6 +476,16 @@ fn run(plan: &Plan, ctx: &mut Ctx) -> R {
         match kind {
             K_VAR => r.label = (op.a[0].unsigned_abs() as usize) % nvars,
             K_CONST => {}
+            K_CLAUSE => {
+                r.x[0] = op.a[0].unsigned_abs() as usize % 24;
+                r.x[1] = nvars;
+            }
+            K_COMPILE => {
+                for j in 0..3 {
+                    r.x[j] = op.a[j].unsigned_abs() as usize % 24;
+                }
+                r.label = (op.a[3].unsigned_abs() as usize % 3) | (nvars << 2);
+            }
             K_NEG => r.x[0] = resolve(op.a[0], caller, &own, n),
             K_AND | K_OR | K_XOR | K_IFF | K_EQ => {
                 r.x[0] = resolve(op.a[0], caller, &own, n);
@@ -480,6 +532,20 @@ fn run(plan: &Plan, ctx: &mut Ctx) -> R {
                     let _ = apply(t, &h, &twin_pool);
                     rsdd::verif::set_faults_enabled(was);
                 }
+                continue;
+            }
+            K_QUERY => {
+                let h = resolve(op.a[0], caller, &own, n);
+                if big[h] {
+                    continue;
+                }
+                let a = match op.a[1].unsigned_abs() % 3 {
+                    0 => pool[h].cached_semantic_hash(b.vtree_manager(), &query_map).value() as u64,
+                    1 => pool[h].semantic_hash(&query_map).value() as u64,
+                    _ => pool[h].count_nodes() as u64,
+                };
+                ctx.ev(70 + K_QUERY as u64, &[h as u64, op.a[1].unsigned_abs() % 3, a]);
+                ctx.note(|| format!("[{i}] c{caller} query#{} on h{h} = {a}", op.a[1].unsigned_abs() % 3));
                 continue;
             }
             K_AUDIT => {
@@ -536,6 +602,8 @@ fn run(plan: &Plan, ctx: &mut Ctx) -> R {
             format!("[{i}] c{caller} h{hidx} = {}({}{}) -> {}  tt={}", KNAMES[kind as usize],
                 match kind { K_VAR | K_COND | K_EXISTS | K_COMPOSE => format!("x{} ", r.label), _ => String::new() },
                 match kind { K_VAR | K_CONST => format!("{}", r.flag), K_NEG | K_EXISTS => format!("h{}", r.x[0]),
+                             K_CLAUSE => format!("{:?}", table_clause(r.x[0], r.x[1])),
+                             K_COMPILE => format!("{:?}", (0..1 + (r.label & 3)).map(|j| table_clause(r.x[j], r.label >> 2)).collect::<Vec<_>>()),
                              K_COND => format!("{} h{}", r.flag, r.x[0]),
                              K_ITE => format!("h{} h{} h{}", r.x[0], r.x[1], r.x[2]), _ => format!("h{} h{}", r.x[0], r.x[1]) },
                 show(p), tt::show(want))
@@ -681,7 +749,7 @@ impl World for SddWorld {
         }
         let ncallers = 1 + c.below(4);
         let mut w = [0u32; NKINDS];
-        let base = [8, 1, 5, 10, 9, 6, 6, 7, 6, 5, 4, 4, 4, 3];
+        let base = [8, 1, 5, 10, 9, 6, 6, 7, 6, 5, 4, 4, 4, 3, 3, 2, 3];
         for k in 0..NKINDS {
             w[k] = if c.below(5) == 0 { 0 } else { base[k] * (1 + c.below(3) as u32) };
         }
@@ -698,6 +766,9 @@ impl World for SddWorld {
                 K_COMPOSE => [gen_operand(&mut o), gen_operand(&mut o), o.below(8) as i64, 0],
                 K_REISSUE => [o.below(1 << 16) as i64, 0, 0, 0],
                 K_AUDIT => [gen_operand(&mut au), 0, 0, 0],
+                K_QUERY => [gen_operand(&mut o), o.below(3) as i64, 0, 0],
+                K_CLAUSE => [o.below(24) as i64, 0, 0, 0],
+                K_COMPILE => [o.below(24) as i64, o.below(24) as i64, o.below(24) as i64, o.below(3) as i64],
                 _ => [gen_operand(&mut o), gen_operand(&mut o), gen_operand(&mut o), 0],
             };
             ops.push(Op { c: caller, k, a });
